@@ -11,6 +11,10 @@ import (
 	"github.com/ontio/ontology/common"
 	"github.com/ontio/ontology/common/serialization"
 
+	"os"
+	"path/filepath"
+	"regexp"
+	"strconv"
 	"verif/harness/gen"
 	"verif/harness/hx"
 )
@@ -541,6 +545,86 @@ func doSerWrite(c *hx.Ctx, v uint64, d []byte) {
 	c.Case(fmt.Sprintf("CSerWrite %d %s %s %s", v, hx.CoqBytes(d), hx.CoqBytes(b1.Bytes()), hx.CoqBytes(b2.Bytes())), map[string]interface{}{"v": v, "d": hx.Hex(d)})
 }
 
+// serSizeBounds reads the size thresholds of the io.Reader codec from its source (integer literals and
+// products of literals such as 2*1024*1024 in common/serialization/serialize.go), so that a boundary a
+// change introduces gets probed as well.
+func serSizeBounds(c *hx.Ctx) []int {
+	seen := map[int]bool{}
+	var out []int
+	add := func(v int) {
+		if v >= 1<<12 && v <= 1<<24 && !seen[v] {
+			seen[v] = true
+			out = append(out, v)
+		}
+	}
+	add(2 * 1024 * 1024)
+	src, err := os.ReadFile(filepath.Join(c.Repo, "common/serialization/serialize.go"))
+	if err == nil {
+		for _, m := range regexp.MustCompile(`\b\d+(?:\s*\*\s*\d+)*\b`).FindAllString(string(src), -1) {
+			v := 1
+			for _, f := range regexp.MustCompile(`\d+`).FindAllString(m, -1) {
+				n, e := strconv.Atoi(f)
+				if e != nil || n == 0 || v > 1<<24 {
+					v = 0
+					break
+				}
+				v *= n
+			}
+			add(v)
+		}
+	}
+	return out
+}
+
+// doSerBig: byte strings and strings around the codec's size thresholds must read back identically
+// (oracle only: lists of millions of bytes are not evaluated in Coq).
+func doSerBig(c *hx.Ctx) {
+	for _, b := range serSizeBounds(c) {
+		for _, n := range []int{b - 1, b, b + 1, b + b/2} {
+			c.Eval()
+			c.Count(fmt.Sprintf("serbig:%d", b))
+			d := make([]byte, n)
+			for i := range d {
+				d[i] = byte(i*131 + 7)
+			}
+			var w bytes.Buffer
+			serialization.WriteVarBytes(&w, d)
+			var rd []byte
+			var err error
+			p, msg := hx.Recover(func() { rd, err = serialization.ReadVarBytes(bytes.NewReader(w.Bytes())) })
+			if p {
+				c.Fail("panic:serialization", "ReadVarBytes panicked", map[string]interface{}{"ser_big_len": n}, msg, nil)
+				continue
+			}
+			if err != nil || !bytes.Equal(rd, d) {
+				c.Fail("roundtrip:large", "a byte string written by serialization.WriteVarBytes reads back identically, whatever its length",
+					map[string]interface{}{"ser_big_len": n}, fmt.Sprintf("read back %d bytes, err=%v", len(rd), err), fmt.Sprintf("%d identical bytes", n))
+			}
+			var w2 bytes.Buffer
+			serialization.WriteString(&w2, string(d))
+			var rs string
+			p, msg = hx.Recover(func() { rs, err = serialization.ReadString(bytes.NewReader(w2.Bytes())) })
+			if p {
+				c.Fail("panic:serialization", "ReadString panicked", map[string]interface{}{"ser_big_len": n}, msg, nil)
+				continue
+			}
+			if err != nil || rs != string(d) {
+				c.Fail("roundtrip:large", "a string written by serialization.WriteString reads back identically, whatever its length",
+					map[string]interface{}{"ser_big_len": n, "string": true}, fmt.Sprintf("read back %d bytes, err=%v", len(rs), err), fmt.Sprintf("%d identical bytes", n))
+			}
+			// the zero-copy codec at the same sizes
+			sink := common.NewZeroCopySink(nil)
+			sink.WriteVarBytes(d)
+			src := common.NewZeroCopySource(sink.Bytes())
+			zd, _, irr, eof := src.NextVarBytes()
+			if eof || irr || !bytes.Equal(zd, d) || src.Len() != 0 {
+				c.Fail("roundtrip:large", "a byte string written by ZeroCopySink.WriteVarBytes reads back identically, whatever its length",
+					map[string]interface{}{"ser_big_len": n, "zero_copy": true}, fmt.Sprintf("read back %d bytes irr=%v eof=%v", len(zd), irr, eof), fmt.Sprintf("%d identical bytes", n))
+			}
+		}
+	}
+}
+
 // structured buffer: a sequence of valid encodings, possibly truncated or with a non-minimal varuint
 func structuredBuf(c *hx.Ctx) ([]byte, []rop) {
 	sink := common.NewZeroCopySink(nil)
@@ -610,6 +694,7 @@ func Run(c *hx.Ctx) {
 		doWrite(c, wc.Wops)
 		return
 	}
+	doSerBig(c)
 	// deterministic sink-history probes: a false bool / zero bytes written where a used sink holds
 	// non-zero bytes
 	doWrite(c, []wop{{Op: "WBool", B: false}, {Op: "WBool", B: false}})
